@@ -253,6 +253,49 @@ def standin_numeric_grid(tier, seed):
                 bound="17 families x 6 (quick) / 60 (thorough) seeded parameter tuples from a 7-value grid", cases=cases, distinct=cases, failures=len(fails),
                 exhaustive=False, _fails=fails[:3])
 standin_numeric_grid.prop = "C03"
+
+def standin_probabilistic_gates(tier, seed):
+    """gate.with_probability(p): Kraus operators and mixture describe rho -> p E(rho) + (1 - p) rho, for qubit and qudit sub-gates, nested too"""
+    import cirq
+
+    cases, fails = 0, []
+    shift3 = cirq.MatrixGate(np.roll(np.eye(3), 1, axis=0), qid_shape=(3,))
+    subs = [cirq.X, cirq.H, cirq.CZ, cirq.bit_flip(0.2), cirq.amplitude_damp(0.3), cirq.XPowGate(dimension=3), cirq.ZPowGate(dimension=3) ** 0.5, cirq.ZPowGate(dimension=4), shift3,
+            cirq.IdentityGate(2, qid_shape=(2, 3)), cirq.ResetChannel(3), cirq.MatrixGate(np.kron(np.roll(np.eye(3), 1, axis=0), np.array([[0, 1], [1, 0]])), qid_shape=(3, 2))]
+
+    def sup(ks):
+        return sum(np.kron(k, np.conj(k)) for k in ks)
+
+    for sub in subs:
+        d = int(np.prod(cirq.qid_shape(sub)))
+        S_sub = sup(cirq.kraus(sub))
+        for p in (0.25, 0.5, 0.9):
+            for nested in (False, True):
+                g = sub.with_probability(p)
+                want = p * S_sub + (1 - p) * np.eye(d * d)
+                if nested:
+                    g = g.with_probability(0.5)
+                    want = 0.5 * want + 0.5 * np.eye(d * d)
+                cases += 1
+                try:
+                    ks = cirq.kraus(g)
+                    if any(np.shape(k) != (d, d) for k in ks) or not np.allclose(sup(ks), want, atol=1e-9):
+                        fails.append(dict(args=dict(gate=repr(g)[:300]), failed="probabilistic-gate-kraus", clause="kraus(gate.with_probability(p)) is not p E + (1 - p) identity on the gate's own dimension"))
+                    if cirq.has_mixture(g):
+                        mix = cirq.mixture(g)
+                        if any(np.shape(u) != (d, d) for _, u in mix) or not np.allclose(sum(q_ * np.kron(u, np.conj(u)) for q_, u in mix), want, atol=1e-9) or abs(sum(q_ for q_, _ in mix) - 1) > 1e-9:
+                            fails.append(dict(args=dict(gate=repr(g)[:300]), failed="probabilistic-gate-mixture", clause="mixture(gate.with_probability(p)) is not p E + (1 - p) identity on the gate's own dimension"))
+                except Exception as ex:
+                    fails.append(dict(args=dict(gate=repr(g)[:300]), failed="probabilistic-gate-raised", clause=f"kraus / mixture raised {ex!r}"))
+    seen, uniq = set(), []
+    for f in fails:
+        if f["failed"] not in seen:
+            seen.add(f["failed"])
+            uniq.append(f)
+    return dict(function="cirq-core/cirq/ops/random_gate_channel.py:RandomGateChannel", case="probabilistic-gates", bound="12 sub-gates (qubits, qutrits, a ququart, mixed shapes, channels) x 3 probabilities x plain / nested",
+                cases=cases, distinct=cases, failures=len(fails), exhaustive=True, _fails=uniq[:3])
+standin_probabilistic_gates.prop = "C03"
+
 def standin_other_gates(tier, seed):
     """gates defined by a rule rather than a closed form: the unitary equals the rule evaluated by brute force"""
     import itertools
@@ -349,7 +392,7 @@ def standin_other_gates(tier, seed):
                 bound="10 expression lists x 3 angles; QFT / phase gradient on 1-4 qubits; diagonal gates on 1-3 qubits; all permutations of 3 (+3); 6 uniform superpositions",
                 cases=cases, distinct=cases, failures=len(fails), exhaustive=False, _fails=uniq[:4])
 standin_other_gates.prop = "C03"
-STANDINS = [standin_channels, standin_numeric_grid, standin_other_gates]
+STANDINS = [standin_channels, standin_numeric_grid, standin_other_gates, standin_probabilistic_gates]
 
 
 def _replay(ob, seed):
